@@ -341,8 +341,11 @@ def defers : FarmerKind → Bool
 
 def removeDir {β} (s : St β) : St β := { s with dir := none }
 
-/-- `Crop.reap` for each farmer kind, as a sequence of effects: gather → label → [clean up] → deliver → [clean up] -/
-def reapFarmer {β} (P : Perms) (nanLike : β → β) (k : FarmerKind) (env : Env) (s : St β) (o : ReapOpts) : FOut β :=
+/-- `Crop.reap` for each farmer kind, as a sequence of effects: gather → label → [clean up] → deliver → [clean up].
+`late` is whatever *other processes* do to the crop directory while a Harvester / Sampler syncs its store (growers
+finishing further batches): it happens after the results were gathered and before the deferred clean-up is decided. -/
+def reapFarmer {β} (P : Perms) (nanLike : β → β) (k : FarmerKind) (env : Env) (s : St β) (o : ReapOpts)
+    (late : Option (Dir β) → Option (Dir β) := id) : FOut β :=
   let outer := cleanUpResolved o.cleanUp o.allowIncomplete
   let inner : ReapOpts := if defers k then { o with cleanUp := some false } else o
   match reapLinear P nanLike s inner with
@@ -354,6 +357,7 @@ def reapFarmer {β} (P : Perms) (nanLike : β → β) (k : FarmerKind) (env : En
     | .raw => { st := s2, res := .ok results, delivered := false }
     | .runner => { st := s2, res := .ok results, delivered := true }
     | _ =>
+      let s2 := { s2 with dir := late s2.dir }
       if env.deliverFails then { st := s2, res := .error .deliver, delivered := false }
       else
         let s3 := if defers k && outer then removeDir s2 else s2
